@@ -3,6 +3,7 @@ import itertools
 import os
 import random
 import re
+import sys
 import tempfile
 
 from .. import core
@@ -19,20 +20,23 @@ RULE = ('sinex_synth writes SINEX 2.02 solutions from a model (1..12 stations, 1
         'without the letter V, three FILE/COMMENT styles).  remove_stns_sinex is called for EVERY proper subset of the stations '
         '(none ... all-but-one) of every file with <= 6 stations and for random subsets above; remove_velocity_sinex for every '
         'velocity file; remove_matrixzeros_sinex for every file plus files whose covariance is that of uncorrelated '
-        'sub-networks (exact zeros).  Each call runs in its own working directory with geodepy.gnss.datetime replaced by a '
-        'subclass whose now() is an input of the run.  The clock dimension is an ENUMERATED configuration space (fault '
-        'enumeration): 9 times of day {00:00:00, 00:00:07, 00:01:39, 00:16:39, 00:16:40, 02:46:39, 02:46:40, 12:00:00, '
-        '23:59:59} x microseconds {0, 600000} x 6 dates {1 Jan 2019, 31 Dec 2019 (day 365), 31 Dec 2024 (day 366), '
-        '29 Feb 2024, 4 Jul 2019 (day 185), 1 Jan 2000} = 108 configurations; every edit is executed under two of them, all '
-        '108 must be hit (otherwise INCONCLUSIVE) and the two outputs must agree outside the creation-time field.  '
-        'non-trivial = a generated well-formed file with >= 1 remaining station; distinct = (function, stations, velocities, '
-        'layout, exponent case, removal-size class, seconds-digit class of the clock) buckets')
+        'sub-networks or has isolated exact zeros (all-zero, partly-zero and zero-free lines of 1, 2 and 3 values).  Each '
+        'call runs in its own working directory with geodepy.gnss.datetime replaced by a subclass whose now() is an input of '
+        'the run.  The clock dimension is an ENUMERATED configuration space (fault enumeration): 9 times of day {00:00:00, '
+        '00:00:07, 00:01:39, 00:16:39, 00:16:40, 02:46:39, 02:46:40, 12:00:00, 23:59:59} x microseconds {0, 600000} x 6 dates '
+        '{1 Jan 2019, 31 Dec 2019 (day 365), 31 Dec 2024 (day 366), 29 Feb 2024, 4 Jul 2019 (day 185), 1 Jan 2000} = 108 '
+        'configurations; every edit is executed under two of them, all 108 must be hit (otherwise INCONCLUSIVE) and the two '
+        'outputs must agree outside the creation-time stamp.  non-trivial = a generated well-formed file with >= 1 remaining '
+        'station; distinct = (function, stations, velocities, layout, exponent case, removal-size class, seconds-digit class '
+        'of the clock) buckets')
 ASSUMPTIONS = ['pandas is absent: an empty stub module satisfies the unused top-level import of geodepy/gnss.py (core.load_repo)',
                'sinex_synth writer/parser follow the SINEX 2.02 column tables and are self-validated each shard (hand-typed '
                'reference lines, writer->parser round trip, sub-matrix model against numpy.delete)',
                'input files consist of the header, FILE/COMMENT, SITE/ID, SOLUTION/EPOCHS, SOLUTION/ESTIMATE and '
                'SOLUTION/MATRIX_ESTIMATE; other optional blocks are outside the statement and not generated',
                'header data start/end fields and the value of the creation time are not judged (only its YY:DDD:SSSSS form)',
+               '"removing a set of stations" is read to include their SITE/ID and SOLUTION/EPOCHS lines: both blocks of the '
+               'output must list exactly the remaining stations, lines unchanged',
                'read_sinex_matrix order: documented order for U; for L the lower-triangle order the docstring describes',
                'remove_matrixzeros_sinex must drop all-zero lines spelled 0.00000000000000e+00 (its documented form); all-zero '
                'lines in another spelling (E exponent) may stay or go, they are only counted',
@@ -106,7 +110,8 @@ def plan(tier, seed):
         for i in range(16):      # velocity removal, agencies cycle through codes with and without V
             add(1 + (5 * i + seed) % 12, 1 + i % 3, True, 'LU'[i % 2], 'eE'[(i // 2) % 2], 0)
         for i in range(24):      # sub-network covariances: exact zeros for the zero-line removal
-            add(2 + (i + seed) % 9, 1 + i % 3, i % 3 == 0, 'LU'[i % 2], 'e' if i % 4 else 'E', 1, zero='groups')
+            add(2 + (i + seed) % 9, 1 + i % 3, i % 3 == 0, 'LU'[i % 2], 'e' if i % 4 else 'E', 1,
+                zero='groups' if (i // 2) % 2 == 0 else 'sparse')
     else:
         k = 0
         for rep in range(3):
@@ -123,7 +128,8 @@ def plan(tier, seed):
         for i in range(240):
             add(1 + (5 * i + seed) % 12, 1 + i % 3, True, 'LU'[i % 2], 'eE'[(i // 2) % 2], 0)
         for i in range(360):
-            add(2 + (i + seed) % 10, 1 + i % 3, i % 3 == 0, 'LU'[i % 2], 'e' if i % 4 else 'E', 2, zero='groups')
+            add(2 + (i + seed) % 10, 1 + i % 3, i % 3 == 0, 'LU'[i % 2], 'e' if i % 4 else 'E', 2,
+                zero='groups' if (i // 2) % 2 == 0 else 'sparse')
     # clock offsets: consecutive edits walk through the enumerated clock configurations
     off = seed * 13
     for f in files:
@@ -171,7 +177,7 @@ class Harness:
         self.real_datetime = self.G.datetime
         self.Clock = VerifClock
         self.G.datetime = VerifClock
-        self.pandas_stub = bool(getattr(__import__('sys').modules.get('pandas'), '__verif_stub__', False))
+        self.pandas_stub = bool(getattr(sys.modules.get('pandas'), '__verif_stub__', False))
 
     def set_clock(self, c):
         self.Clock._now = self.Clock(*c)
@@ -380,6 +386,8 @@ def judge_zero_lines(ctx, V, m, in_lines, p):
         elif ol.startswith(want[0]) and len(ol) > len(want[0]):
             V('lines-joined:' + want[1], {'observed_line_start': ol[:200], 'observed_line_length': len(ol),
                                           'expected_own_line': want[0]})
+        elif any(x[0] == ol for x in exp[j + 1:j + 400]):
+            V('line-missing:' + want[1], {'expected': want[0][:160], 'next_output_line': ol[:160]})
         else:
             V('line-changed:' + want[1], {'observed': ol[:160], 'expected': want[0][:160]})
         stopped = True
